@@ -27,6 +27,7 @@ var files = []genFile{
 	{"Opcodes.lean", genOpcodes},
 	{"AbortOps.lean", genAbortOps},
 	{"VmFields.lean", genVmFields},
+	{"Adapters.lean", genAdapters},
 }
 
 func main() {
